@@ -114,7 +114,7 @@ package deb
 //@     invariant [C01] index-in-range: 0 <= iter && iter <= len(info.Contents)
 //@     invariant [C06] no-failure-so-far: !ghostFlag("failed")
 //@     invariant [C07] no-clock-so-far: implies(!old(info.MTime.IsZero()), !ghostFlag("clockRead"))
-//@     invariant [C07 C11 C12] plan-still-fresh: !inlined() || nfpm.SpecPlanOK(info.Contents, !old(info.MTime.IsZero()))
+//@     invariant [C01 C04 C05 C07 C11 C12] plan-still-fresh: !inlined() || nfpm.SpecPlanOK(info.Contents, !old(info.MTime.IsZero()))
 //@     invariant [C01] plan-entries-complete: inlined() || files.SpecPlanInputOK(info.Contents, true)
 //
 //@ spec func confLine(c *files.Content) string {
